@@ -142,7 +142,8 @@ Theorem op_frames : forall o s s' r, exec_op shipped o s = (s', r) ->
 Proof. exact WB_exec_op. Qed.
 Print Assumptions op_frames.
 
-(* --- reverting a repair breaks a theorem: witnesses on the model variants without the fix, next to the shipped result *)
+(* --- reverting a repair breaks a theorem: witnesses on the model variants without the fix, next to the shipped result
+   (the fourth repair, e615ec5, has its pair further down: purge_trash_table_drains / trash_row_stuck_refuted_...) *)
 Theorem block_atomic_refuted_without_pointer_fix :
   let '(s', r) := exec nofix_ptr prog_ptr (init e0) in
   r = Raised false /\ fget 0 (fs s') = Some 1 /\ ds (cur s') = [] /\ ptr s' <> [].
@@ -228,6 +229,21 @@ Print Assumptions removal_never_harms_other_datasets_registry.
 Theorem removal_all_or_nothing_partial : forall j, (j < 40)%nat -> j <> 4%nat -> j <> 8%nat -> purge_ok j = true.
 Proof. exact purge_faults_p. Qed.
 Print Assumptions removal_all_or_nothing_partial.
+
+(* --- e615ec5 (emptyTrash deletes records and trash rows in one transaction): on the shipped model the trash table is
+   empty after the follow-up emptyTrash at EVERY fault position of the purge (finite, bound in the statement); on the
+   model variant with two separate commits a fault between them leaves a trash row that no emptyTrash ever deletes *)
+Theorem purge_trash_table_drains : forall j, (j < 40)%nat -> trash_drained shipped j = true.
+Proof. exact purge_trash_drains_p. Qed.
+Print Assumptions purge_trash_table_drains.
+
+Theorem trash_row_stuck_refuted_without_emptytrash_fix :
+  exists j, let '(s', r) := exec nofix_et (POp (Purge 1)) (with_fuse j s_one) in
+            r = Raised false /\ ds (cur s') = [] /\ fs s' = [] /\
+            recs (cur (after_empty_c nofix_et s')) = [] /\ trash (cur (after_empty_c nofix_et s')) = [1] /\
+            trash (cur (after_empty_c nofix_et (after_empty_c nofix_et s'))) = [1].
+Proof. exact trash_row_stuck_without_fix_p. Qed.
+Print Assumptions trash_row_stuck_refuted_without_emptytrash_fix.
 
 (* non-vacuity: the hypotheses are satisfiable by reachable, non-trivial runs *)
 Example block_raises_after_work :
